@@ -106,7 +106,7 @@ def _impl_worker(args):
     import signal
     stream, case = args
 
-    class _Timeout(Exception):
+    class _Timeout(BaseException):   # not an Exception: harness code that catches Exception must not swallow it
         pass
 
     def _on_alarm(signum, frame):
